@@ -1344,7 +1344,7 @@ def run(ctx: Ctx) -> None:
     ctx.rule('R3', 'owner-only mutations: every reachable write is dominated by an owner filter for (caller, path batch id)', 18)
     ctx.rule('R4', 'billing project / limit administration requires developer or auth service', 13)
     ctx.rule('R5', 'the authenticating wrappers block before calling the handler; pass-through decorators pass through', 9)
-    ctx.rule('R6', 'listing queries: every condition ANDed onto the batch / billing-project scope is closed under AND (parenthesised or no top-level OR)', 22)
+    ctx.rule('R6', 'listing queries: every condition ANDed onto the batch / billing-project scope is closed under AND (parenthesised or no top-level OR)', 28)
     ctx.rule('R7', "sub-resource selectors of the {batch_id} routes: every path component is int()-converted or confined to strings without '/' wherever it selects what is fetched", 23)
     ctx.rule('R8', 'billing-project membership has one meaning: removal revokes the row every reader counts (or every reader rejects the retained row)', 9)
     ctx.rule('R9', 'per-query batch filters: every statement a {batch_id} route runs over a batch-keyed table is tied to the request batch (bound parameter / join on the batch key)', 33)
